@@ -295,6 +295,58 @@ def rule_incumbent(ctx):
     return res.finish(1)
 
 
+def rule_reg(ctx):
+    """'covariances whose diagonal includes the configured regularisation': reg_covar is added to the diagonal of the
+    *normalised* scatter matrix.  Added before the division by the component mass, it is divided too and the diagonal
+    carries reg_covar / n_k, which vanishes for heavy components - the guard against singular covariances is gone."""
+    res = RuleResult("R-C10-reg", "reg_covar is added to the covariance diagonal after the normalisation by the component mass: nothing rescales the block afterwards")
+    F = ctx.facts()
+    fns = [f for f in F.all_fns() if f["d"]["krate"] == "linfa_clustering" and f["d"]["name"] == "estimate_gaussian_covariances_full"]
+    if not fns:
+        res.missing_anchor("GaussianMixtureModel::estimate_gaussian_covariances_full")
+    for fn in fns:
+        c = fn["crate"]
+        key = fn_key(fn)
+        regs = [b["local"] for p_ in fn["params"] for b in pat_bindings(p_) if "reg" in b["name"]]
+        # the regularisation parameter is the scalar float parameter (identified by type, the name is only a hint)
+        scal = [b["local"] for i_, p_ in enumerate(fn["params"]) for b in pat_bindings(p_) if (fn["inputs"][i_] if i_ < len(fn["inputs"]) else "").strip() in ("F", "f64", "f32")]
+        reg = set(scal) or set(regs)
+        found = False
+        for blk in walk(fn["body"]):
+            if blk.get("k") != "Block":
+                continue
+            stmts = blk["stmts"] + ([blk["e"]] if blk.get("e") else [])
+            for i, st in enumerate(stmts):
+                uses_reg = any(y.get("k") == "Path" and y.get("local") in reg for y in walk(st))
+                on_diag = any(y.get("k") == "MethodCall" and y["name"] in ("diag_mut", "diag") for y in walk(st))
+                if not (uses_reg and on_diag):
+                    continue
+                found = True
+                # the local whose diagonal is regularised
+                tgt = None
+                for y in walk(st):
+                    if y.get("k") == "MethodCall" and y["name"] in ("diag_mut", "diag"):
+                        t = peel_refs(y["recv"])
+                        if t.get("k") == "Path" and "local" in t:
+                            tgt = t["local"]
+                res.instance("%s : regularisation of the diagonal" % key)
+                later = None
+                for st2 in stmts[i + 1:]:
+                    for y in walk(st2):
+                        if y.get("k") == "AssignOp" and y["op"] in ("/", "*") and peel_refs(y["l"]).get("local") == tgt:
+                            later = y
+                        if y.get("k") == "MethodCall" and y["name"] in ("mapv_inplace", "map_inplace") and peel_refs(y["recv"]).get("local") == tgt and any(z.get("k") == "Binary" and z["op"] in ("/", "*") for z in walk(y)):
+                            later = y
+                if later is not None:
+                    res.violate("%s : regularisation-rescaled" % key, "the covariance block is multiplied / divided after reg_covar was added to its diagonal: the diagonal then carries reg_covar / n_k instead of reg_covar", fn_loc(fn, later["ln"]))
+                else:
+                    res.ok()
+        if not found:
+            res.instance("%s : regularisation of the diagonal" % key)
+            res.undecided("%s : regularisation-not-found" % key, "no statement adding the regularisation to a diagonal found", fn_loc(fn))
+    return res.finish(1)
+
+
 def _tparity(e, is_base):
     """number of transpositions (mod 2) between a base matrix and expression e, or None if e is not a (transposed) view of it"""
     par = 0
@@ -433,4 +485,4 @@ def rule_orient(ctx):
 
 
 def rules(tier):
-    return [rule_refresh, rule_err, rule_lse, rule_posterior, rule_memorder, rule_incumbent, rule_orient]
+    return [rule_refresh, rule_err, rule_lse, rule_posterior, rule_memorder, rule_incumbent, rule_orient, rule_reg]
